@@ -5,6 +5,7 @@ import (
 	"fmt"
 	"os"
 	"path/filepath"
+	"strings"
 	"sync"
 
 	"github.com/jotaen/klog/klog"
@@ -265,7 +266,7 @@ func init() {
 			"specmodel.Parse (reference parser written from Specification.md; three-way cross-check against the generator's denotation on FA/FB)",
 			"don't-care zones (DESIGN §3.1): tab separators, blanks inside should-total parentheses, trailing blanks, integers > 10^9, invalid UTF-8 (a CR that is not part of CR LF is an ordinary non-blank character)",
 			"every document is parsed by the serial parser and by the parallel parser with 2 and 3 workers; each result is judged on its own",
-			"every 64th document also at file level through `klog total` with 1-3 input files (the text first, last or in the middle; equal base names in different directories): an invalid text makes the command fail, valid texts evaluate to all their records",
+			"every 64th document also at file level through `klog total` with the text on standard input and with 1-3 input files (the text first, last or in the middle; equal base names in different directories): an invalid text makes the command fail, valid texts evaluate to all their records",
 			"Unicode tables are Go's (shared with klog)",
 		},
 		Units: func(t fw.Tier) int { return len(planSpans(famSizes(c01Families(t)), c01Chunk)) },
@@ -349,6 +350,27 @@ func c01Files(c *fw.Ctx, cs func() famCase, text string, ref sm.Result) {
 	os.MkdirAll(filepath.Join(dir, "y"), 0755)
 	path := clidrv.WriteFile(filepath.Join(dir, "x"), "in.klg", text)
 	good := clidrv.WriteFile(filepath.Join(dir, "y"), "in.klg", "2000-01-01\n    1h\n\n2000-01-02\n    2h\n") // same base name, another directory
+	// the same text piped through standard input (no file argument)
+	if strings.TrimSpace(text) != "" {
+		in := text
+		r := clidrv.Exec(clidrv.Home("home-nobookmarks"), clidrv.Opts{Now: fixedNow, OSStdin: &in}, &cli.Total{DecimalArgs: cliutil.DecimalArgs{Decimal: true}, NoStyleArgs: cliutil.NoStyleArgs{NoStyle: true}, WarnArgs: cliutil.WarnArgs{NoWarn: true}})
+		c.Count("stdin_runs", 1)
+		switch {
+		case r.Panicked:
+			c.Violation("panic:stdin:"+fw.PanicSite(r.Stack), cs(), fmt.Sprintf("`klog total` with the text on standard input panicked: %v\n%s", r.PanicVal, r.Stack))
+			return
+		case ref.Verdict == sm.Invalid && r.Code == 0:
+			c.Violation("invalid-stdin-accepted", cs(), fmt.Sprintf("the text breaks a MUST rule (line %d: %s) but `klog total` with it on standard input exits 0 and prints %q", ref.Line, ref.Rule, r.Stdout))
+			return
+		case ref.Verdict == sm.Valid && !ref.ZsBlank && len(ref.Records) > 0:
+			n := len(ref.Records)
+			exp := fmt.Sprintf("Total: %d\n(In %d record%s)\n", sm.Total(ref.Records), n, map[bool]string{true: "", false: "s"}[n == 1])
+			if r.Code != 0 || r.Stdout != exp {
+				c.Violation("valid-stdin-total", cs(), fmt.Sprintf("`klog total --decimal` with the text on standard input printed (exit %d %s)\n%q\nexpected\n%q", r.Code, r.Err, r.Stdout, exp))
+				return
+			}
+		}
+	}
 	for _, order := range [][]string{{path}, {path, good}, {good, path}, {good, path, good}} {
 		var files []app.FileOrBookmarkName
 		for _, f := range order {
